@@ -91,7 +91,13 @@ impl<T: Types> RaftLogWriter<T> for RaftLog<T> {
         let log_id = if index == T::next_log_index(purged) {
             purged.cloned()
         } else {
-            let log_id = self.get_log_id(index - 1)?;
+            // `index` may be 0 here (when something is purged): there is no
+            // log before it.
+            let Some(prev_index) = index.checked_sub(1) else {
+                let e = RaftLogStateError::<T>::from(LogIndexNotFound::new(index));
+                return Err(e.into());
+            };
+            let log_id = self.get_log_id(prev_index)?;
             Some(log_id)
         };
 
